@@ -70,6 +70,62 @@ CHECKS["C14"] = dict(
     note="allocation faults are injected via -Wl,--wrap on everything linked into the driver; PER is treated as not "
          "restartable (structure released after RC_WMORE)")
 
+CHECKS["C04"] = dict(
+    level="exploration", design="DESIGN.md §4 C04",
+    technique="fuzzing: structure-aware mutation of reference encodings (Hypothesis-drawn mutation lists over DER/BER/OER/UPER/XER of generated values) plus coverage-guided libFuzzer campaigns on a generic in-process target; oracle: sanitizers, rc in the documented set, consumed <= size, ledger balance, and accepted => re-encodable and stable",
+    text="G1: every reference encoding of a generated value is damaged by drawn mutations (bit flips, length edits, truncation, "
+         "splices, tag edits, XML edits) and decoded under ASan/UBSan with the allocation ledger; G2: libFuzzer drives "
+         "c/fuzz_decode.c (last two input octets select the type and the syntax) over modules drawn from the same generator, "
+         "seeded with valid encodings.  Whatever the decoder accepts must re-encode, decode again to the same DER, and leave "
+         "nothing allocated; rejection must be RC_FAIL/RC_WMORE with consumed within the buffer.",
+    note="a time-bounded search; crash-/leak- artefacts are replayed three times before they count; "
+         "libFuzzer campaigns are pinned only approximately by -seed, the saved input is the reproducible unit")
+CHECKS["C08"] = dict(
+    level="exploration", design="DESIGN.md §4 C08",
+    technique="property-based differential testing of the generated constraint checkers against an independent reference predicate (vf/ref_sem.py) over Hypothesis-generated types with valid and deliberately violating values",
+    text="Values are drawn inside and just outside every SIZE, value-range, FROM and nested member constraint (one violation "
+         "at a time, at every depth), injected as DER and checked with asn_check_constraints(); the verdict must equal the "
+         "reference predicate's and a failure must name a non-empty error text; decoders must still accept what they are "
+         "documented to accept (constraints are not enforced on decode for BER/XER).",
+    note="extensible constraints are left out of the violating set (anything is allowed there); the reference predicate is the trusted base")
+CHECKS["C09"] = dict(
+    level="exploration", design="DESIGN.md §4 C09",
+    technique="property-based differential testing of constraint-expression evaluation: Hypothesis-generated constraint trees (union, intersection, EXCEPT, ALL EXCEPT, extension markers, serial constraints, MIN/MAX) evaluated by set algebra in Python and compared with the checker and the PER/OER encodings asn1c generates",
+    text="For each generated constraint tree the reference computes the permitted set, the PER-visible root range and the OER "
+         "width class; the generated checker must accept exactly the permitted values at every range boundary, UPER must use "
+         "the root range (bit-exact against the reference encoder) and OER the right width.",
+    note="integers restricted to the native 64-bit range; sets are represented by interval lists, so the comparison is exact at every boundary of the tree")
+CHECKS["C13"] = dict(
+    level="exploration", design="DESIGN.md §4 C13",
+    technique="metamorphic property-based testing across code-generation options: the same generated module compiled under different option sets must give byte-identical encodings and identical decode results for the same values",
+    text="Each generated module is built with the default options and with -fcompound-names, -findirect-choice, -fwide-types, "
+         "-fno-constraints, -fincludes-quoted, -no-gen-PER/-no-gen-OER in drawn combinations; every value's DER/XER/UPER/OER "
+         "bytes (for the codecs left enabled) and the decode/check verdicts must not depend on the options, except the "
+         "constraint verdict under -fno-constraints.",
+    note="codecs removed by an option are not compared; option sets are a drawn sample of the 2^7 combinations")
+CHECKS["C16"] = dict(
+    engine="vf-rapidcheck", level="exploration", design="DESIGN.md §4 C16",
+    technique="property-based testing with rapidcheck: INTEGER/REAL/numeral conversion helpers against exact reference arithmetic (128-bit integers, long double / exact binary fractions)",
+    text="asn_INTEGER2long/ulong/imax/umax, asn_*2INTEGER, asn_strto*_lim, asn_REAL2double/asn_double2REAL and the XER text "
+         "forms are driven with boundary-biased values; results, errno and the returned status must equal the reference; "
+         "conversions that the header documents as range errors must report them.",
+    note="rapidcheck seeds from VERIF_SEED via RC_PARAMS; shrunk counterexamples are written as replay files and re-run without the library")
+CHECKS["C17"] = dict(
+    engine="vf-rapidcheck", level="exploration", design="DESIGN.md §4 C17",
+    technique="property-based testing with rapidcheck: OBJECT IDENTIFIER / RELATIVE-OID arc API round trips and text parsing against a reference base-128 codec",
+    text="OBJECT_IDENTIFIER_set_arcs/get_arcs, get_single_arc, parse_arcs and print are driven with arcs at the 7-bit group "
+         "boundaries and the 32/64-bit limits; the content octets must equal the reference, the round trip must be the "
+         "identity, and out-of-range arcs must fail with ERANGE rather than truncate.",
+    note="same harness conventions as C16")
+CHECKS["C20"] = dict(
+    level="exploration", design="DESIGN.md §4 C20",
+    technique="property-based testing (Hypothesis-built TLV trees and reference-encoder BER variants) with a byte-exact unber -p | enber round trip and a field-by-field comparison with a reference TLV parser, plus mutation, random-byte and libFuzzer (unber_stream) safety search under ASan/UBSan",
+    text="Well-formed documents (any class, tag numbers to 2^30-1, definite/indefinite/padded lengths, nesting to depth 40, "
+         "all content octets) must survive unber -p | enber unchanged and every O/T/TL/V/L field printed must agree with the "
+         "reference parse; damaged, truncated and random inputs and a libFuzzer campaign must end in exit 0 or 65 without a "
+         "sanitizer report, signal or hang.",
+    note="unber bounds nesting at 2048 levels (diagnosed), so the round-trip domain is nesting <= 2048; enber on damaged text is exercised but gives notes only")
+
 NOT_YET = {
 }
 
@@ -110,8 +166,12 @@ def main():
             "add_only": True,
         },
         "engines": [
-            {"name": "vf-hypothesis", "path": "/verif/vf", "serves_properties": sorted(CHECKS),
+            {"name": "vf-hypothesis", "path": "/verif/vf",
+             "serves_properties": sorted(p for p in CHECKS if CHECKS[p].get("engine", "vf-hypothesis") == "vf-hypothesis"),
              "kind_free_text": "Python/Hypothesis generators + independent reference codecs driving C drivers linked with the code asn1c generates"},
+            {"name": "vf-rapidcheck", "path": "/verif/c",
+             "serves_properties": sorted(p for p in CHECKS if CHECKS[p].get("engine") == "vf-rapidcheck"),
+             "kind_free_text": "rapidcheck properties (c/c16.cpp, c/c17.cpp) linked with the skeleton library, driven by vf/c16.py, vf/c17.py"},
         ],
         "checks": checks,
         "not_applicable": na,
